@@ -41,9 +41,10 @@ class Ctx:
         self.notes = []
         self.compared = 0
     # --- running
-    def impl(self, lines, B=4096, sharded=True):
+    def impl(self, lines, B=4096, sharded=True, exempt=None):
+        """exempt(line) -> bool: a case that may run out of time by design (the plugin classifies it); it does not count towards runner.MAX_TIMEOUTS"""
         exe = self.harness[B]
-        return runner.run_impl_sharded(exe, lines) if sharded else runner.run_impl(exe, lines)
+        return runner.run_impl_sharded(exe, lines, exempt=exempt) if sharded else runner.run_impl(exe, lines, exempt=exempt)
     def model(self, lines):
         return runner.run_model(lines)
     # --- bookkeeping
